@@ -103,19 +103,9 @@ where
                 let mut ret = Ordering::Equal;
                 for (order, rev) in q.order_by() {
                     if *rev {
-                        ret = ret.then(
-                            b.get(order)
-                                .unwrap()
-                                .to_string()
-                                .cmp(&a.get(order).unwrap().to_string()),
-                        );
+                        ret = ret.then(cmp_value(b.get(order).unwrap(), a.get(order).unwrap()));
                     } else {
-                        ret = ret.then(
-                            a.get(order)
-                                .unwrap()
-                                .to_string()
-                                .cmp(&b.get(order).unwrap().to_string()),
-                        );
+                        ret = ret.then(cmp_value(a.get(order).unwrap(), b.get(order).unwrap()));
                     }
                 }
 
@@ -239,6 +229,25 @@ impl Expr {
                 false
             }
         }
+    }
+}
+
+/// order two column values: numbers numerically, strings as text (not as their JSON text,
+/// which puts 10 before 9 and compares the quotes of strings)
+fn cmp_value(a: &JsonValue, b: &JsonValue) -> Ordering {
+    match (a, b) {
+        (JsonValue::Number(x), JsonValue::Number(y)) => {
+            if let (Some(x), Some(y)) = (x.as_i64(), y.as_i64()) {
+                x.cmp(&y)
+            } else {
+                x.as_f64()
+                    .unwrap_or_default()
+                    .partial_cmp(&y.as_f64().unwrap_or_default())
+                    .unwrap_or(Ordering::Equal)
+            }
+        }
+        (JsonValue::String(x), JsonValue::String(y)) => x.cmp(y),
+        _ => a.to_string().cmp(&b.to_string()),
     }
 }
 
